@@ -32,14 +32,14 @@ PROPS = {
              "explicit reasoned exemption table."),
     "C09": dict(
         claimed=True, design="§3 C09",
-        technique="decision table of Cast.check_without_mask vs docs list-tables; symbolic evaluation of the rename branch and of the SQL cast dispatch over all type pairs; CFG must-pass-through",
+        technique="decision table of Cast.check_without_mask vs docs list-tables; symbolic evaluation of the rename branch and of the SQL cast dispatch over all type pairs; CFG must-pass-through; integer-typing lint of `/` in the conversion macros; concrete evaluation of the Time->Time_Period macro text over a calendar grid against the calendar definition of VTL periods",
         text="Decides the accept/reject table of cast (code vs the two documented tables, 8x8), that every validation path performs the "
              "check, the documented measure-renaming rule, and that representation-changing conversions are routed to existing SQL "
              "macros rather than a generic CAST. Does not decide per-value conversion results (DuckDB semantics).",
         note="docs/data_types.rst is the oracle. Known findings: 4 table cells and 2 generic-CAST pairs (see known_findings.txt)."),
     "C30": dict(
         claimed=True, design="§3 C30",
-        technique="decision table of set_decimal_config over ({unset} U [-5..45])^2 settings incl. call sequences; docs constant comparison; call-graph search for memoised dependants of the decimal type",
+        technique="decision table of set_decimal_config over ({unset} U [-5..45])^2 settings incl. call sequences; docs constant comparison; call-graph search for memoised dependants of the decimal type; abstract interpretation (E6) of the CSV read-type and DataFrame SELECT builders for a Number component over all source column types (text-to-decimal path, no binary-float cast)",
         text="Decides the validation half of the property exhaustively: which settings are accepted, that rejection is the documented "
              "configuration error naming the offending variable, that the published (width, scale) is the documented effective value, "
              "that outcomes do not depend on earlier settings, and that nothing derived from the decimal type is memoised or hard-coded. "
@@ -118,7 +118,7 @@ PROPS = {
              "exemption: union's ROW_NUMBER() OVER () (could not be made to misbehave on DuckDB 1.5.5)."),
     "C33": dict(
         claimed=True, design="§3 C33",
-        technique="the C15 order-dependence lint + def-use chain from the CSV header read to the positional read_csv column map + explicit INSERT column lists + no positional sampling of values in the loaders",
+        technique="the C15 order-dependence lint + def-use chain from the CSV header read to the positional read_csv column map + explicit INSERT column lists + no positional sampling of values in the loaders; constant-position accesses to an input header inventoried against a reviewed table",
         text="Decides row-order independence at the level of emitted SQL (same lint as C15) and column-order independence of all three "
              "loaders: the positional read_csv column map is ordered by the file's own header and never re-ordered, DataFrame/Parquet "
              "inserts name their columns, and no loader decision is taken from a positional sample of the data.",
@@ -136,7 +136,7 @@ PROPS = {
 
     "C32": dict(
         claimed=True, design="§3 C32",
-        technique="writer/reader agreement between SQL error('…') texts and the ordered substring decision list of the error mappers; enclosing-handler analysis of data-evaluating execute sites reachable from execute_queries; bare-raise and visitor-coverage inventory on the execution path",
+        technique="writer/reader agreement between SQL error('…') texts and the ordered substring decision list of the error mappers; enclosing-handler analysis of data-evaluating execute sites reachable from execute_queries; bare-raise and visitor-coverage inventory on the execution path; non-message guards of mapper branches evaluated (E6) per execution site (statement text vs the empty text of the fetch site); macro-availability rule: macros called by load/fetch SQL vs the conditions under which execute_queries adds them to the installed closure",
         text="Decides the structural conditions under which an execution failure can surface as a VTL error: every error text the "
              "engine's own SQL can raise is claimed by the intended branch of the mapper serving its execution site, every branch "
              "returns a coded VTL exception, statements that evaluate data are executed under a duckdb.Error handler that maps, no "
@@ -224,7 +224,7 @@ PROPS = {
              "finding: fetch_result relabels Null-typed scalars from the DuckDB column type."),
     "C24": dict(
         claimed=True, design="§3 C24",
-        technique="writer/reader agreement between the ASTString renderer (specialised to pretty mode by branch pruning) and the grammar + AST constructor: typed field-read inventory vs constructed node classes, operator dispatch vs grammar alternative shapes (ANTLR .g4 reader), elided defaults vs downstream defaults, literal/name formatting vs lexer tokens (constant-folded reserved-word table, quote-provenance analysis of the constructor), taint rule for text rewriting, CFG set/reset pairing of rendering flags",
+        technique="writer/reader agreement between the ASTString renderer (specialised to pretty mode by branch pruning) and the grammar + AST constructor: typed field-read inventory vs constructed node classes, operator dispatch vs grammar alternative shapes (ANTLR .g4 reader), elided defaults vs downstream defaults, literal/name formatting vs lexer tokens (constant-folded reserved-word table, quote-provenance analysis of the constructor), taint rule for text rewriting, CFG set/reset pairing of rendering flags; positional-list iteration rule (no filtering of params/children/operands); inventory of long-lived renderer instances (stateful class bound at module/class level)",
         text="Decides the structural clauses of meaning preservation: prettify() loses no field of any node the parser can build; every "
              "operator is written in the shape the grammar reads back; parameters omitted as defaults are the defaults assumed when absent; "
              "numbers, booleans, nulls are written losslessly with the lexer's own spellings; every keyword is in the re-quoting table and "
@@ -235,7 +235,7 @@ PROPS = {
              "Names that need quotes without being reserved words (e.g. 'my ds') are not covered. Known finding: 3.0 is written 3."),
     "C25": dict(
         claimed=True, design="§3 C25",
-        technique="totality of ast_to_sdmx's isinstance dispatch over the return-class closure of the AST constructor's visitStatement (class hierarchy aware); def-use of the Transformation/Ruleset/UDO fields; per-branch counter/append ordering; compact-mode field-read inventory of the renderer; the literal/operator/default/name rules and the interprocedural text-rewrite taint rule shared with C24",
+        technique="totality of ast_to_sdmx's isinstance dispatch over the return-class closure of the AST constructor's visitStatement (class hierarchy aware); def-use of the Transformation/Ruleset/UDO fields; per-branch counter/append ordering; compact-mode field-read inventory of the renderer; the literal/operator/default/name rules and the interprocedural text-rewrite taint rule shared with C24; positional-list iteration rule; one renderer instance per rendering (inventory of long-lived instances of the stateful renderer class)",
         text="Decides the structural clauses of scheme equivalence: every kind of top-level statement the parser can build is mapped "
              "(subclass before base), each assignment gives one Transformation carrying the statement's own result name, "
              "persistence constant and rendered right-hand side, item ids come from counters incremented once per item, definitions "
@@ -246,7 +246,7 @@ PROPS = {
              "3.0 written as 3."),
     "C23": dict(
         claimed=True, design="§3 C23",
-        technique="lexical/brace-matched analysis of bindings.cpp (ParserState members vs resets before parser->start(), listener installation); statement-CFG must-pass-through / must-precede rules on the function that calls parse(); call-graph parse-path set checked for memoisation decorators and for process-global containers without per-parse reset (globals inventory); acquire/release pairing of the parser lock on normal and exceptional exits (incl. generator context managers); raise-site inventory with grammar-exhaustiveness of ctx_id dispatch chains (ANTLR .g4 reader)",
+        technique="lexical/brace-matched analysis of bindings.cpp (ParserState members vs resets before parser->start(), listener installation); statement-CFG must-pass-through / must-precede rules on the function that calls parse(); call-graph parse-path set checked for memoisation decorators and for process-global containers without per-parse reset (globals inventory); acquire/release pairing of the parser lock on normal and exceptional exits (incl. generator context managers); raise-site inventory with grammar-exhaustiveness of ctx_id dispatch chains (ANTLR .g4 reader); inventory of import-time instances of mutable in-repo classes used on the parse path",
         text="Decides the structural clauses of the parser property: every piece of the C++ parser's global state is reset per parse and "
              "errors of lexer and parser are collected; the Python side reads this parse's error after parse() and raises "
              "VTLSyntaxError with the parser's own position before the tree is used, on every path; no function on the parse path "
@@ -258,7 +258,7 @@ PROPS = {
              "optional parts are counted, not decided. Eight known findings (built-in exceptions for grammar-valid constructs)."),
     "C03": dict(
         claimed=True, design="§3 C03",
-        technique="typed field-read inventory of the SQL transpiler for Aggregation; paired-field rule (grouping/grouping_op); CFG must-reach of the translated having condition to the builder's HAVING in both aggregation paths; def-use provenance of the group-identifier lists (operand structure vs statement output structure); who-may-call rule (no WHERE on the aggregating builder); registry templates vs the grammar's aggregate operators (same-name rule)",
+        technique="typed field-read inventory of the SQL transpiler for Aggregation; paired-field rule (grouping/grouping_op); CFG must-reach of the translated having condition to the builder's HAVING in both aggregation paths; def-use provenance of the group-identifier lists (operand structure vs statement output structure); who-may-call rule (no WHERE on the aggregating builder); registry templates vs the grammar's aggregate operators (same-name rule); clause-scope coverage of the translated having / aggregate / grouping expressions",
         text="Decides the structural clauses of aggregation: no part of the aggregation syntax is ignored by the SQL generation; the "
              "grouping list is interpreted with its by/except/all operator; a having condition cannot be dropped on any path; the "
              "identifiers that define the groups come from the operand and the grouping clause, not from the statement's final "
@@ -268,7 +268,7 @@ PROPS = {
              "DuckDB error). Null handling inside DuckDB's aggregates is trusted."),
     "C04": dict(
         claimed=True, design="§3 C04",
-        technique="typed field-read inventory for JoinOp/NvlJoinPair; constant folding of the join-keyword expression over the grammar's join tokens; sibling-site agreement in visit_JoinOp (FULL JOIN key coalescing in SELECT and ON; nvl defaults in every projection branch); CFG rule on the per-statement reset of join scratch state with wrapper summaries; restoring-context-manager rule for attribute rebinding",
+        technique="typed field-read inventory for JoinOp/NvlJoinPair; constant folding of the join-keyword expression over the grammar's join tokens; sibling-site agreement in visit_JoinOp (FULL JOIN key coalescing in SELECT and ON; nvl defaults in every projection branch); CFG rule on the per-statement reset of join scratch state with wrapper summaries; restoring-context-manager rule for attribute rebinding; join model: abstract interpretation (E6) of Operators.Join.*.validate and SQLTranspiler.visit_JoinOp on small operand structures, comparing SELECT list with the semantic components and every ON clause with the relational definition (keys, referenced operand, join type)",
         text="Decides the structural clauses of joins: using / nvl / every clause are consumed; the four join operators select four "
              "different SQL joins; full-join keys are coalesced across the joined operands wherever the joined side is referenced; "
              "join scratch state cannot leak from one statement into the next; nvl defaults apply in every projection branch. Found "
@@ -276,7 +276,7 @@ PROPS = {
         note="The choice of the left-hand alias of ON clauses for inner/left joins is not decided (seeded change C04_1 is missed)."),
     "C06": dict(
         claimed=True, design="§3 C06",
-        technique="typed field-read inventory for Analytic/Windowing/OrderBy; paired-field rule (partition_by/partition_op, bounds/modes); guard-emission pairing on the CFG of the OVER-clause builder (strict ORDER BY guard); registry templates vs the grammar's analytic operators (same-name rule, sibling shape agreement); evaluation of the window-bound formatter over all bound shapes",
+        technique="typed field-read inventory for Analytic/Windowing/OrderBy; paired-field rule (partition_by/partition_op, bounds/modes); guard-emission pairing on the CFG of the OVER-clause builder (strict ORDER BY guard); registry templates vs the grammar's analytic operators (same-name rule, sibling shape agreement); evaluation of the window-bound formatter over all bound shapes; abstract interpretation (E6) of visit_Windowing over every frame shape (offsets 0-3, unbounded, current; data points / range; date ordering) against the offset semantics of the frame",
         text="Decides the structural clauses of analytic invocations: partition, order, window and parameters all reach the OVER "
              "clause; `partition except` is honoured wherever the partition is used; ORDER BY is emitted exactly when the script "
              "has an order by and the frame exactly when it has a window; every analytic operator is the SQL window function of the "
@@ -285,7 +285,7 @@ PROPS = {
         note="Analytic without order by (frame without ORDER BY) is reported under C15/C33, since C06 speaks about total orderings."),
     "C07": dict(
         claimed=True, design="§3 C07",
-        technique="typed field-read inventory for the validation node classes; enum-member vs comparison-constant coverage of the mode dispatch; alias analysis from the ruleset/operator registries to mutation sites (interprocedural over transpiler methods); reader/writer agreement on the hierarchy pivot's presence columns; exact three-valued evaluation of the parsed SQL that filters invalid rows and gates errorcode/errorlevel",
+        technique="typed field-read inventory for the validation node classes; enum-member vs comparison-constant coverage of the mode dispatch; alias analysis from the ruleset/operator registries to mutation sites (interprocedural over transpiler methods); reader/writer agreement on the hierarchy pivot's presence columns; exact three-valued evaluation of the parsed SQL that filters invalid rows and gates errorcode/errorlevel; finite decision table (E6) of the errorcode/errorlevel literal helper (NULL iff absent)",
         text="Decides the structural clauses of validation: error codes/levels, imbalance, output and validation modes are all consumed; "
              "every validation mode is dispatched and zero substitution is tied to absence of a code item in exactly the *_zero modes; "
              "no statement can edit the ruleset definitions that later statements use; for check, check_datapoint and "
@@ -305,7 +305,7 @@ PROPS = {
         note="Known findings: the enumerated fold over a group (list_reduce(list(col))) is input-order dependent (two forms)."),
     "C02": dict(
         claimed=True, design="§12.7 C02",
-        technique="abstract interpretation over a finite structure domain (component names and roles): the interpreter's clause validators, the StructureVisitor's clause builders and the SQL clause handlers are read from source and evaluated by the E6 evaluator on mock structures for every small operand list; their component sets / SELECT lists / WHERE conditions are compared; three-valued evaluation of the filter predicate; restoring-context-manager rule; typed field-read inventory",
+        technique="abstract interpretation over a finite structure domain (component names and roles): the interpreter's clause validators, the StructureVisitor's clause builders and the SQL clause handlers are read from source and evaluated by the E6 evaluator on mock structures for every small operand list; their component sets / SELECT lists / WHERE conditions are compared; three-valued evaluation of the filter predicate; restoring-context-manager rule; typed field-read inventory; calc with every role keyword (roles of validator vs builder), expression-scope analysis of nested SELECT levels, clause-scope coverage of translated component expressions",
         text="Decides the structural half of the clause property: for calc, keep, drop, rename and sub the three pieces of code that say "
              "which components the result has (semantic validator, transpiler structure builder, SELECT list of the generated SQL) agree on "
              "every small operand list the validator accepts, i.e. the clause changes exactly the listed components; filter hands the "
